@@ -17,6 +17,8 @@ import EinoV.Expected.C04
 import EinoV.Proofs.C04Key
 import EinoV.Model.C04FMap
 import EinoV.Proofs.C04FMap
+import EinoV.Model.C04ErrItem
+import EinoV.Proofs.C04ErrItem
 
 namespace EinoV.C04
 open EinoV.Engine EinoV.Gen
@@ -556,5 +558,46 @@ example : let es : List FEdge := [{ ms := [{ src := "a", dst := "A" }], cs := [[
       { ms := [{ src := "b", dst := "B", checked := false }], cs := [[("b", .wrong)]], keys := ["b"] }]
     fmInvokeAll es = .ok [("A", .good "x"), ("B", .wrong)] ∧ fmStreamAll true es = .ok [("A", .good "x"), ("B", .wrong)] ∧
     fmStreamAll false es = .error errNotAssignable := ⟨by rfl, by rfl, by rfl⟩
+
+/-! ### the error VALUE of an error item (`Model/C04ErrItem.lean`): only the bare io.EOF ends a stream -/
+
+/-- fact tie: package compose compares with io.EOF by identity (`err == io.EOF`) — in
+    `concatStreamReader`, the one Recv loop of the package, behind every derived paradigm — and
+    nowhere through `errors.Is(·, io.EOF)` -/
+theorem eof_comparison_fact : FactsC04.composeEOFComparedByIdentity = true := by decide
+
+/-- **error_item_value_irrelevant.** "A failure is reported in every paradigm": an error item that is
+    not io.EOF ITSELF is a failure for the framework's concatenation loop whatever the error value is —
+    a leaf error, io.ErrUnexpectedEOF, a wrapped context.Canceled, or an error whose `Unwrap` chain
+    reaches io.EOF (`rel = .reaches`: `*url.Error{Err: io.EOF}`, `%w` of io.EOF, `errors.Join`, an `Is`
+    method) — at any chunk position `pre.length`, whatever follows: the loop (with the comparison the
+    source has) sees exactly the chunks before the item and the item, and everything that drains the
+    stream fails with it: the concatenation behind Invoke / Collect and every derived paradigm
+    (`lazyConcat`), a packed component (`lazyNode`), a plain branch condition (`lazyCond`). -/
+theorem error_item_value_irrelevant {V} (co : ChunkOps V) (pre : List V) (rel : EOFRel) (e : Err)
+    (rest : List (Item V)) (h : rel ≠ .identical)
+    (t : List V → Except Err (List V)) (c : List V → Except Err (List Key)) :
+    let s := view FactsC04.composeEOFComparedByIdentity (pre.map Item.chunk ++ Item.fail rel e :: rest)
+    s = { chunks := pre, err := some e } ∧
+    lazyConcat co s = .error e ∧ lazyNode t s = .error e ∧ lazyCond c s = .error e := by
+  rw [eof_comparison_fact, view_identity_fail pre rel e rest h]
+  have hr := error_item_reported co ({ chunks := pre, err := some e } : LStream V) e rfl t 0 e c
+  exact ⟨rfl, hr.2.2.2, hr.1, hr.2.2.1⟩
+
+/-- **reader_loops_agree.** The framework's loop sees every stream exactly as a caller's
+    `err == io.EOF` loop does (the one that drains the readers Stream / Transform hand out): the two
+    kinds of paradigms cannot differ in whether an item ends or fails the stream. -/
+theorem reader_loops_agree {V} (items : List (Item V)) :
+    view FactsC04.composeEOFComparedByIdentity items = view true items := by
+  rw [eof_comparison_fact]
+
+/-- negation witness: a loop that ends on `errors.Is(err, io.EOF)` takes a wrapped io.EOF for the end
+    of the stream — the concatenation (Invoke, Collect) returns the truncated value as a success while
+    a caller draining the same stream (Stream, Transform) gets the failure -/
+theorem errors_is_eof_truncates :
+    let items : List (Item Nat) := [.chunk 1, .chunk 2, .fail .reaches { cls := .user 7 }, .chunk 4]
+    let co : ChunkOps Nat := { concatItems := fun l => .ok l.sum, emptyErr := { cls := .noTasks } }
+    lazyConcat co (view false items) = .ok 3 ∧ lazyConcat co (view true items) = .error { cls := .user 7 } ∧
+    lazyConcat co (view true [.chunk 1, .chunk 2, .chunk 4]) = .ok 7 := by decide
 
 end EinoV.C04
